@@ -356,7 +356,10 @@ def points_case(draw):
                     draw(st.one_of(fl(-360.0, 540.0), st.sampled_from([179.9, -179.9, 180.0, -180.0, 359.5, 0.0])))])
     return {"nlon": nlon, "lon0": lon0, "nlat": nlat, "ntime": ntime, "pts": pts,
             "seed": draw(st.integers(0, 2 ** 32 - 1)), "k": draw(st.sampled_from([1, -1, 2])),
-            "angular": draw(st.booleans())}
+            "angular": draw(st.booleans()),
+            # the order in which the caller lists the coordinates of the points is free
+            "order": draw(st.permutations(["time", "latitude", "longitude"])),
+            "dims": draw(st.sampled_from([["time", "latitude", "longitude"], ["time", "longitude", "latitude"]]))}
 
 
 def run_points(c):
@@ -369,12 +372,14 @@ def run_points(c):
     t64 = tsec.astype("int64").astype("datetime64[s]").astype("datetime64[ns]")
     shape = (c["ntime"], c["nlat"], c["nlon"])
     data = rng.uniform(-3, 3, size=shape)
-    vars_ = {"hs": (("time", "latitude", "longitude"), data.copy())}
+    dims = tuple(c.get("dims", ["time", "latitude", "longitude"]))
+    perm = [("time", "latitude", "longitude").index(d) for d in dims]
+    vars_ = {"hs": (dims, np.transpose(data, perm).copy())}
     periodic_data = None
     if c["angular"]:
         base = rng.uniform(0, 360)
         ang = (base + rng.uniform(-60, 60, size=shape)) % 360.0
-        vars_["wave_direction"] = (("time", "latitude", "longitude"), ang.copy())
+        vars_["wave_direction"] = (dims, np.transpose(ang, perm).copy())
         periodic_data = {"wave_direction": (360, 360)}
     ds = xarray.Dataset(vars_, coords={"time": t64, "latitude": lat, "longitude": lon})
     pts = np.array(c["pts"])
@@ -384,7 +389,8 @@ def run_points(c):
     p64 = pt_t.astype("int64").astype("datetime64[s]").astype("datetime64[ns]")
 
     def call(lons):
-        return interpolate_at_points(ds, {"time": p64.copy(), "latitude": pt_lat.copy(), "longitude": lons.copy()},
+        allp = {"time": p64.copy(), "latitude": pt_lat.copy(), "longitude": lons.copy()}
+        return interpolate_at_points(ds, {k: allp[k] for k in c.get("order", ["time", "latitude", "longitude"])},
                                      independent_variable="time", periodic_coordinates={"longitude": 360},
                                      periodic_data=periodic_data)
     out = call(pt_lon)
@@ -415,7 +421,34 @@ def run_points(c):
         require((np.isfinite(ga) & (ga >= 0) & (ga < 360)).all(), "direction_variable_in_0_360", f"{ga}")
         g2a = np.asarray(out2["wave_direction"].values, dtype=float)
         require((np.abs(wrap180(g2a - ga)) <= 2e-3).all(), "targets_360_apart_give_equal_results", "angular")
-    return {"nontrivial": wrap_hit, "classes": ["points", "angular_var" if c["angular"] else "scalar_var"]}
+    classes = ["points", "angular_var" if c["angular"] else "scalar_var"]
+    if list(c.get("order", dims)) != list(dims):
+        classes.append("points_listed_in_other_order_than_dims")
+    # the library's own track API (lists the point coordinates as time, longitude, latitude)
+    if not c["angular"]:
+        from ocean_science_utilities.interpolate.dataset import interpolate_dataset
+        from ocean_science_utilities.interpolate.geometry import Track
+        tr = Track.from_arrays(pt_lat, ((pt_lon + 180.0) % 360.0) - 180.0, p64, "buoy")
+        # interpolate_dataset evaluates the track at the dataset's own times
+        frames = interpolate_dataset(ds, tr)
+        df = frames["track"]
+        hv = np.asarray(df["hs"].values, dtype=float)
+        require(len(hv) == len(t64), "track_api_length", f"{len(hv)} vs {len(t64)}")
+        tl = tr.interpolate(t64)
+        for j in range(len(t64)):
+            la, lo = float(tl.latitude[j]), float(tl.longitude[j])
+            if not (lat[0] <= la <= lat[-1]):
+                continue
+            bl = OI.bracket(lat, la)
+            i0, i1, tx = cyclic_bracket(lon, lo)
+            ref = 0.0
+            for (il, wl) in ((bl[0], 1 - bl[2]), (bl[1], bl[2])):
+                for (io, wo) in ((i0, 1 - tx), (i1, tx)):
+                    ref += wl * wo * data[j, il, io]
+            require(np.isfinite(hv[j]) and abs(hv[j] - ref) <= 1e-8, "track_api_value_with_cyclic_longitude",
+                    f"time index {j}: lat={la} lon={lo} got={hv[j]!r} ref={ref!r}")
+        classes.append("track_api")
+    return {"nontrivial": wrap_hit, "classes": classes}
 
 
 SUBCHECKS = [
